@@ -92,10 +92,28 @@ func (cw *ccWorld) addrN(raw []byte) int {
 	return cw.w.Interner().Addr((&Account{Addr: raw}).AddrString())
 }
 
+// destNum: the destination of a DIRECT swap (token of the origin channel) is never compared with anything, it only names
+// the given-out counter, and that name is upper-cased: "vt" and "VT" are the same destination there
+func (cw *ccWorld) destNum(to string, direct bool) int {
+	if direct {
+		if v, ok := cw.chN[strings.ToUpper(to)]; ok {
+			return v
+		}
+	}
+	return cw.chNum(to)
+}
+
+// the robot carries a swap to the channel its destination names (the name of a direct swap in any letter case)
+func (cw *ccWorld) routesTo(s *fpb.Swap, dst string) bool {
+	direct := strings.SplitN(s.GetToken(), "_", 2)[0] == s.GetFrom()
+	return cw.destNum(s.GetTo(), direct) == cw.chN[strings.ToUpper(dst)]
+}
+
 func (cw *ccWorld) swapTerm(s *fpb.Swap) string {
 	sym, g := cw.tokN3(s.GetToken())
+	direct := strings.SplitN(s.GetToken(), "_", 2)[0] == s.GetFrom()
 	return fmt.Sprintf("SW %d %d %d %d %s %d %d %d", cw.addrN(s.GetCreator()), cw.addrN(s.GetOwner()), sym, g,
-		coqZ(new(big.Int).SetBytes(s.GetAmount())), cw.chNum(s.GetFrom()), cw.chNum(s.GetTo()), swHashN(s.GetHash()))
+		coqZ(new(big.Int).SetBytes(s.GetAmount())), cw.chNum(s.GetFrom()), cw.destNum(s.GetTo(), direct), swHashN(s.GetHash()))
 }
 
 func (cw *ccWorld) swapRec(ch, id string) *fpb.Swap {
@@ -234,6 +252,9 @@ func (cw *ccWorld) randBegin(c *Ctx, ch string) swBeginArgs {
 	switch r := rng.Intn(100); {
 	case r < 40:
 		b.tok = own
+		if rng.Intn(4) == 0 {
+			b.to = strings.ToLower(other) // the channel's name as Fabric writes it
+		}
 	case r < 50 && ch == "tt":
 		b.tok = own + "_G1"
 	case r < 80:
@@ -257,7 +278,8 @@ func (cw *ccWorld) randBegin(c *Ctx, ch string) swBeginArgs {
 
 func (cw *ccWorld) beginTerm(ch string, b swBeginArgs) string {
 	s, g := cw.tokN(b.tok)
-	return fmt.Sprintf("%d %d %d %d %d %s %d", cw.users[b.u].N(), cw.idN(b.id), s, g, cw.chNum(b.to), coqZi(b.amt), swKeyN(b.key))
+	direct := strings.SplitN(b.tok, "_", 2)[0] == strings.ToUpper(ch)
+	return fmt.Sprintf("%d %d %d %d %d %s %d", cw.users[b.u].N(), cw.idN(b.id), s, g, cw.destNum(b.to, direct), coqZi(b.amt), swKeyN(b.key))
 }
 
 func genC08(c *Ctx) error {
@@ -461,7 +483,7 @@ func c08Two(c *Ctx) error {
 			if a := inbox[k]; a != nil {
 				r = a // the robot answers what the batch reply announced
 			}
-			if status[k] == stNone && r != nil && string(r.GetCreator()) != "0000" && r.GetTo() == strings.ToUpper(dst) {
+			if status[k] == stNone && r != nil && string(r.GetCreator()) != "0000" && cw.routesTo(r, dst) {
 				if cw.swAnswer(dst, proto.Clone(r).(*fpb.Swap)) == "" { // the ledger refuses an occupied id
 					status[k] = stAnswered
 					good++
@@ -593,7 +615,7 @@ func c08Two(c *Ctx) error {
 					case status[k] == stDestCancelled:
 						perform("corig", d, id, "")
 					case status[k] == stNone && r != nil && string(r.GetCreator()) != "0000":
-						if r.GetTo() == strings.ToUpper(map[string]string{"tt": "vt", "vt": "tt"}[org]) && rng.Intn(2) == 0 {
+						if cw.routesTo(r, map[string]string{"tt": "vt", "vt": "tt"}[org]) && rng.Intn(2) == 0 {
 							perform("answer", d, id, "")
 						} else {
 							perform("corig", d, id, "")
